@@ -17,9 +17,10 @@ func init() {
 		return []scen.Spec{scen.SparseGenesis(), scen.BridgeSpec(), scen.Mixed(), scen.Basket(), scen.Market(), scen.Core()}
 	}
 	Registry["C01"] = func(tier string) int {
-		return engineA("C01", tier, append([]scen.Spec{scen.Large()}, shared()...),
+		return engineAWith("C01", tier, append([]scen.Spec{scen.Large()}, shared()...),
 			func() []explore.Monitor { return []explore.Monitor{&mon.C01{}} },
-			budget(tier, 200*time.Second, 15*time.Minute))
+			budget(tier, 200*time.Second, 15*time.Minute), c01GenesisSupply,
+			"genesis part: the exported prepared state with one batch in two baskets must pass the module's genesis validation, and each of seven documents in which one supply or basket holding is off by one unit must be refused")
 	}
 	Registry["C02"] = func(tier string) int {
 		return engineA("C02", tier, append([]scen.Spec{scen.OddGenesis(), scen.Large()}, shared()...),
